@@ -301,15 +301,15 @@ macro_rules! raw_poll_harness {
 raw_poll_harness!(c18_responder_raw_end_session, 22, [0, 3],
     [DECODE_ERR, DISPATCH_OTHER_SESSION, DISPATCH_STOPPED],
     [],
-    [1 2 3 4 5 6 7 8 9 10 11 12 13 14 15 16 17 18 19 20 21 22 23 24]);
+    [2 3 4 12 20 21 22]);
 raw_poll_harness!(c18_responder_raw_sync_resume, 24, [0, 2],
     [DECODE_ERR, DISPATCH_OTHER_SESSION, DISPATCH_UNSUPPORTED],
     [],
-    [1 2 3 4 5 6 7 8 9 10 11 12 13 14 15 16 17 18 19 20 21 22 23 24]);
+    [2 3 4 5 14 23 24]);
 raw_poll_harness!(c18_responder_raw_request_missing, 24, [0, 1],
     [DECODE_ERR, DISPATCH_OTHER_SESSION, DISPATCH_UNSUPPORTED],
     [],
-    [1 2 3 4 5 6 7 8 9 10 11 12 13 14 15 16 17 18 19 20 21 22 23 24]);
+    [2 3 4 5 6 14 24]);
 
 // ---------------------------------------------------------------------------------------------
 // B. structured requests
